@@ -249,9 +249,22 @@ const EB: i64 = fx::NOW + 5000; // explicit earliest-expiry bound
 const ISSUANCE: [(bool, i64); 7] =
   [(true, LB), (true, LB - 1), (true, LB + 1), (false, fx::NOW), (false, fx::NOW + 1), (true, 253_402_300_800), (false, 1_893_456_000_000)];
 const LAST_REPRESENTABLE: i64 = 253_402_300_799;
-/// (explicit bound?, expiration date)
-const EXPIRY: [(bool, Option<i64>); 6] =
-  [(true, None), (true, Some(EB)), (true, Some(EB + 1)), (true, Some(EB - 1)), (false, Some(fx::NOW)), (false, Some(fx::NOW - 1))];
+/// (explicit bound?, expiration date). The last two (`exp_in_vc_only`) state the expiration inside `vc` only
+/// (`vc.expirationDate`, no registered `exp` claim): a validator may call that malformed; if it accepts, the expiration
+/// it was given still has to be honoured and returned.
+const EXPIRY: [(bool, Option<i64>); 8] = [
+  (true, None),
+  (true, Some(EB)),
+  (true, Some(EB + 1)),
+  (true, Some(EB - 1)),
+  (false, Some(fx::NOW)),
+  (false, Some(fx::NOW - 1)),
+  (true, Some(EB - 1)),
+  (true, Some(EB + 1)),
+];
+fn exp_in_vc_only(expiry: usize) -> bool {
+  expiry >= 6
+}
 
 #[derive(Clone, Copy, Debug, PartialEq)]
 enum Prop {
@@ -711,7 +724,7 @@ fn expect(ch: &Ch) -> Expect {
     5 => Open, // an array of subjects is legal VC data model but has no JWT encoding here
     _ => F,
   };
-  if iss > LAST_REPRESENTABLE && c[STRUCT] == T {
+  if (iss > LAST_REPRESENTABLE || exp_in_vc_only(ch.expiry)) && c[STRUCT] == T {
     c[STRUCT] = Open;
   }
   // --- subject / holder
@@ -800,7 +813,11 @@ fn build(ch: &Ch, ex: &Expect) -> Built {
     claims["iat"] = json!(ch.contradicting_iat());
   }
   if let Some(e) = EXPIRY[ch.expiry].1 {
-    claims["exp"] = json!(e);
+    if exp_in_vc_only(ch.expiry) {
+      claims["vc"]["expirationDate"] = json!(fx::ts(e).to_rfc3339());
+    } else {
+      claims["exp"] = json!(e);
+    }
   }
   if let Some(s) = ch.subject_id() {
     claims["sub"] = json!(s);
@@ -1050,7 +1067,7 @@ fn body(ctx: &Ctx, core: Option<[u8; 6]>, chooser: &mut Chooser) {
             if errors.len() != 1 {
               ctx.violation(&format!("{entry}|first-error|more-than-one-error"), &format!("errors [{}] | {}", shown(), ctxt()), &case);
             }
-          } else if ex.c[STRUCT] != Open && !unknown && ISSUANCE[ch.issuance].1 <= LAST_REPRESENTABLE {
+          } else if ex.c[STRUCT] != Open && !unknown && ISSUANCE[ch.issuance].1 <= LAST_REPRESENTABLE && !exp_in_vc_only(ch.expiry) {
             // (claims that cannot be decoded into a credential leave nothing to evaluate the other units on)
             let reported: BTreeSet<usize> = errors.iter().flat_map(|e| blamed(e).unwrap_or(&[]).iter().copied()).collect();
             for k in UNIT_STAGE {
